@@ -509,6 +509,12 @@ func checkC05(c *Ctx) {
 		}
 	}
 
+	// ---- C05.11 each pipe relays through memory of its own: the buffer Read fills is allocated by this call of halfPipe
+	// (or handed in as a fresh allocation of its own by every caller). Two pipes of one tunnel run concurrently; a
+	// buffer carved out of shared or pooled memory - and re-extended to its capacity - lets one direction's read land
+	// in the bytes the other direction is about to write.
+	checkPrivateRelayBuffer(c, "C05.11")
+
 	// ---- C05.10 the open-session gauge is a count, not an epoch statistic: it moves by +1 / -1 in addSession /
 	// removeSession only; nothing stores into it and nothing overwrites the statistics object as a whole
 	r.Rule("C05.10", "the session gauge is changed only by the +1 / -1 of addSession / removeSession", 2)
@@ -957,4 +963,122 @@ func passedToOnce(f *ssa.Function) bool {
 		}
 	}
 	return used && onlyOnce
+}
+
+// privateBuffer: "" if v is memory allocated in f itself (make / new array, possibly re-sliced, through phis and
+// locals), or a parameter for which every caller passes such an allocation of its own; else what it is.
+func privateBuffer(f *ssa.Function, v ssa.Value, depth int) string {
+	if depth > 6 {
+		return "too deeply derived to follow"
+	}
+	switch x := v.(type) {
+	case *ssa.MakeSlice:
+		return ""
+	case *ssa.Alloc:
+		if _, isArr := x.Type().Underlying().(*types.Pointer).Elem().Underlying().(*types.Array); isArr {
+			return ""
+		}
+		// a local variable holding the slice: every store
+		if x.Referrers() != nil {
+			n := 0
+			for _, ref := range *x.Referrers() {
+				if st, ok := ref.(*ssa.Store); ok && st.Addr == ssa.Value(x) {
+					n++
+					if why := privateBuffer(f, st.Val, depth+1); why != "" {
+						return why
+					}
+				}
+			}
+			if n > 0 {
+				return ""
+			}
+		}
+		return "a local that is never assigned"
+	case *ssa.Slice:
+		return privateBuffer(f, x.X, depth+1)
+	case *ssa.UnOp:
+		if x.Op == token.MUL {
+			if _, isAlloc := x.X.(*ssa.Alloc); isAlloc {
+				return privateBuffer(f, x.X, depth+1)
+			}
+			return "loaded from " + firstN(pathOf(x.X), 40)
+		}
+	case *ssa.Phi:
+		for _, e := range x.Edges {
+			if e == ssa.Value(x) {
+				continue
+			}
+			if why := privateBuffer(f, e, depth+1); why != "" {
+				return why
+			}
+		}
+		return ""
+	case *ssa.Parameter:
+		idx := -1
+		for i, p := range f.Params {
+			if p == x {
+				idx = i
+			}
+		}
+		sites, asValue := callersOf(f)
+		if idx < 0 || len(sites) == 0 && !asValue {
+			return "the parameter " + x.Name()
+		}
+		// go / defer call sites are not in `sites`: look for them
+		var all []*ssa.CallCommon
+		for _, sct := range sites {
+			all = append(all, &sct.Call)
+		}
+		for _, g := range allRepoFuncs {
+			eachInstr(g, func(in ssa.Instruction) {
+				switch y := in.(type) {
+				case *ssa.Go:
+					if y.Call.StaticCallee() == f {
+						all = append(all, &y.Call)
+					}
+				case *ssa.Defer:
+					if y.Call.StaticCallee() == f {
+						all = append(all, &y.Call)
+					}
+				}
+			})
+		}
+		seen := map[ssa.Value]bool{}
+		for _, cc := range all {
+			if idx >= len(cc.Args) {
+				return "the parameter " + x.Name()
+			}
+			a := cc.Args[idx]
+			mk, isMk := a.(*ssa.MakeSlice)
+			if !isMk {
+				return "handed in by a caller as " + firstN(pathOf(a), 50) + " (not an allocation of its own)"
+			}
+			if seen[mk] {
+				return "one allocation handed to two pipes"
+			}
+			seen[mk] = true
+		}
+		if len(all) == 0 {
+			return "the parameter " + x.Name()
+		}
+		return ""
+	}
+	return "derived from " + firstN(pathOf(v), 50)
+}
+
+// checkPrivateRelayBuffer (C05.11, C04.13)
+func checkPrivateRelayBuffer(c *Ctx, rule string) {
+	r := c.R
+	hp := c.fn(rule, "pkg/station/lib", "", "halfPipe")
+	r.Rule(rule, "the relay buffer of a pipe is a fresh allocation private to that pipe", 1)
+	if hp != nil {
+		for _, ci := range callsIn(hp, func(n string, cc *ssa.CallCommon) bool { return cc.IsInvoke() && cc.Method.Name() == "Read" }) {
+			call := ci.(*ssa.Call)
+			buf := call.Call.Args[0]
+			why := privateBuffer(hp, buf, 0)
+			r.Check(why == "", rule, "halfPipe: the buffer handed to Read is private to this pipe", call.Pos(), fnName(hp), "allocated in this call: "+firstN(pathOf(buf), 60),
+				"the relay buffer is "+why+": the two directions of a tunnel (or two tunnels) can read into overlapping memory, so bytes of one direction are overwritten before they are written out - the stream is corrupted")
+		}
+	}
+
 }
